@@ -90,7 +90,13 @@ fn kind(p: &Profile, d: &mut Dec) -> Kind {
             }
         }
         3 => Kind::Gen {
-            fd: [FdKind::EventFd, FdKind::Sock, FdKind::PipeR, FdKind::PipeW][d.pickw(&[3, 3, 1, 1])],
+            fd: match d.pickw(&[3, 3, 1, 1, 2]) {
+                0 => FdKind::EventFd,
+                1 => FdKind::Sock,
+                2 => FdKind::PipeR,
+                3 => FdKind::PipeW,
+                _ => FdKind::Shared(d.u8r(0, 1)),
+            },
             interest: d.pickw(&[1, 5, 1, 2]) as u8,
             mode: d.pickw(&[4, 2, 2]) as u8,
         },
